@@ -275,12 +275,67 @@ def check_signs(ctx, db):
     ctx.require('R-SIGN/R-DEP obligations', n, 29)
 
 
+def check_length_fields(ctx, db):
+    """Every floating-point (length-valued) field of a path element is rescaled by the path's scale/transform, and
+    along-path lengths (end extensions, bend radius) by the ABSOLUTE factor: a negative scale is a point reflection,
+    lengths stay positive. Field list comes from the record layout (a new double/Vec2 field is picked up)."""
+    from ..facts import flat_fields
+    n = 0
+    for rect, fns, handled_elsewhere in (('gdstk::FlexPathElement', ('gdstk::FlexPath::scale', 'gdstk::FlexPath::transform'), ()),
+                                         ('gdstk::RobustPathElement', ('gdstk::RobustPath::simple_scale',), ('width_array', 'offset_array', 'end_width', 'end_offset'))):  # stored in the untransformed frame, scaled at use by width_scale / offset_scale (C08 frame discipline)
+        rec = db.record(rect)
+        lengths = [name for name, t, grp in flat_fields(rec) if re.search(r'\bdouble\b|Vec2', t or '') and '(*)' not in (t or '') and not (t or '').rstrip().endswith(')') and 'void' not in (t or '')]
+        lengths = [x for x in lengths if x not in handled_elsewhere and not x.endswith('_data')]
+        if len(lengths) < 1:
+            raise AnalysisBroken('%s: no length-valued fields found in the record layout' % rect)
+        for qn in fns:
+            f = db.fn(qn)
+            ctx.touch(f)
+            pmag = f.params[0]['n']
+            upd = {}
+            for x in f.walk():
+                if (x.k == 'CompoundAssignOperator' or x.k == 'CXXOperatorCallExpr' or is_assign(x)) and getattr(x, 'op', None) == '*=':
+                    lhs = x.args[0] if x.k == 'CXXOperatorCallExpr' else x.child('lhs')
+                    rhs = x.args[1] if x.k == 'CXXOperatorCallExpr' else x.child('rhs')
+                    for m in lhs.walk():
+                        if m.k == 'MemberExpr' and m.n in lengths:
+                            upd.setdefault(m.n, []).append(rhs)
+            # the width/offset array is scaled through a cursor into half_width_and_offset.items
+            for v in f.walk():
+                if v.k == 'VarDecl' and v.child('init') is not None:
+                    for m in v.child('init').walk():
+                        if m.k == 'MemberExpr' and m.n in lengths and any(y.k == 'MemberExpr' and y.n == 'items' for y in v.child('init').walk()):
+                            key = 'v%d:%s' % (v.d, v.n)
+                            if any((x.k in ('CompoundAssignOperator', 'CXXOperatorCallExpr')) and getattr(x, 'op', None) == '*=' and any(lvalue_key(d_) == key for d_ in (x.args[0] if x.k == 'CXXOperatorCallExpr' else x.child('lhs')).walk() if d_.k == 'DeclRefExpr') for x in f.walk()):
+                                upd.setdefault(m.n, []).append(None)
+            for fld in lengths:
+                n += 1
+                ctx.check(fld in upd, 'R-AGG', '%s/scales:%s' % (qn.replace('gdstk::', ''), fld), f.loc(), 'length field `%s` of %s is rescaled' % (fld, rect.split('::')[-1]),
+                          'length field `%s` of %s is not rescaled by %s: the transformed path is not the image of the original (e.g. bends keep their old radius)' % (fld, rect.split('::')[-1], qn.replace('gdstk::', '')))
+                for rhs in upd.get(fld, []):
+                    if rhs is None or fld == 'half_width_and_offset':
+                        continue
+                    r0 = _strip_casts(rhs)
+                    nonneg = r0.k == 'CallExpr' and (r0.callee or '') in ('fabs', 'std::fabs', 'std::abs', 'abs')
+                    if not nonneg and r0.k == 'MemberExpr':
+                        # component of the (width, offset) factor that is fabs(...) and never negated in this function
+                        base = _strip_casts(r0.child('base'))
+                        while base is not None and base.k == 'MemberExpr' and not base.n:
+                            base = _strip_casts(base.child('base'))
+                        nonneg = False
+                    n += 1
+                    ctx.check(nonneg, 'R-SIGN', '%s/abs-factor:%s' % (qn.replace('gdstk::', ''), fld), rhs.loc(), '`%s` is scaled by the absolute value of the factor' % fld,
+                              '`%s` is multiplied by the signed factor `%s`: under a negative scale (a point reflection) the length becomes negative' % (fld, rhs.text()[:40]))
+    ctx.require('R-AGG/R-SIGN element length fields', n, 10)
+
+
 def run(ctx):
     db = ctx.db
     check_point_maps(ctx, db)
     check_spine_twins(ctx, db)
     check_placement(ctx, db)
     check_signs(ctx, db)
+    check_length_fields(ctx, db)
     # Repetition::transform (C10.5) — same obligations as C11
     C11.check_transform(ctx, db)
     C11.check_transform_algebra(ctx, db)
@@ -289,7 +344,7 @@ def run(ctx):
 
 
 MANIFEST = dict(
-    text='Decides structural necessary conditions of the documented affine maps: the point map (magnify, reflect y, rotate, translate) is the same normalised code in Polygon::transform, FlexPath::transform and Reference::repeat_and_transform with the rotation rows x cos - y sin / x sin + y cos; Polygon::{translate,scale,mirror,rotate} equal the spine parts of the FlexPath methods; Reference::transform == Label::transform and has the composition shape (r1 from the incoming reflection only; rotation = r1*rotation + rot; magnification *= mag; x_reflection ^= x_refl; origin from the captured old origin); by abstract interpretation over the sign domain for every sign/boolean valuation: offset factors keep their sign under magnification of either sign and flip exactly under reflection, width factors stay positive and are 1 unless scale_width, in FlexPath::scale/transform/mirror and RobustPath::simple_scale/mirror/x_reflection; RobustPath::transform is scale; reflect-if; rotate; translate; Repetition::transform depends on every non-neutral parameter for every kind and valuation. Numerical agreement with the matrix is not decided.',
+    text='Decides structural necessary conditions of the documented affine maps: the point map (magnify, reflect y, rotate, translate) is the same normalised code in Polygon::transform, FlexPath::transform and Reference::repeat_and_transform with the rotation rows x cos - y sin / x sin + y cos; Polygon::{translate,scale,mirror,rotate} equal the spine parts of the FlexPath methods; Reference::transform == Label::transform and has the composition shape (r1 from the incoming reflection only; rotation = r1*rotation + rot; magnification *= mag; x_reflection ^= x_refl; origin from the captured old origin); by abstract interpretation over the sign domain for every sign/boolean valuation: offset factors keep their sign under magnification of either sign and flip exactly under reflection, width factors stay positive and are 1 unless scale_width, in FlexPath::scale/transform/mirror and RobustPath::simple_scale/mirror/x_reflection; RobustPath::transform is scale; reflect-if; rotate; translate; every length-valued field of the path element records (from the record layout: widths/offsets, end extensions, bend radius) is rescaled by scale/transform and the along-path lengths by the absolute factor; Repetition::transform depends on every non-neutral parameter for every kind and valuation and is, as a polynomial identity on all 40 (kind, valuation) paths, m R(rotation) diag(1, +-1). Numerical agreement of outlines is not decided.',
     note='Trusted: clang front end, gx, sa rules (sa/signs.py interprets literals, unary minus, fabs, products, ternaries, Vec2 initialisers and component stores; anything else evaluates to unknown and fails the obligation). Reference strings for the origin map were confirmed by reading.',
     technique='clone families over α-normalised ASTs + sign-domain abstract interpretation with exhaustive parameter-sign enumeration + predicate-atom path enumeration',
     design='§4 C10')
